@@ -241,6 +241,10 @@ def do_replay(prop: str, path: str) -> int:
         # C16: a step of __aenter__ fails or the task is cancelled k loop iterations after the statement began
         from .props import enterfail
         return enterfail.replay(case)
+    if "concurrent" in case:
+        # C01: concurrent Gateway.send calls over a transport whose write suspends, under a schedule
+        from .props import codec_concurrent
+        return codec_concurrent.replay(case)
     if "interference" in case:
         from .props import codec_interference
         codec_interference.replay(case)
